@@ -144,10 +144,15 @@ class FindIdentifiers(_ast_util.NodeVisitor):
         # argument names in each function header so they arent
         # counted as "undeclared"
 
+        args = node.args
+
+        # default values are evaluated in the enclosing scope
+        for default in args.defaults + args.kw_defaults:
+            if default is not None:
+                self.visit(default)
+
         inf = self.in_function
         self.in_function = True
-
-        args = node.args
 
         argnames = [
             arg_id(arg)
